@@ -129,4 +129,17 @@ CLAIMS.update({
               'monitors, and runs every respelled history again in canonical spelling, comparing the two runs of the implementation.'),
         note=COMMON_NOTE + ' The abstract syntax covers RFC 9111 §5.2 fields whose names are tokens and whose arguments are tokens or quoted-strings; field values that are not well-formed lists are outside the theorem (their handling is compared by the run only).'),
 })
+CLAIMS.update({
+    'C20': dict(
+        text=('Theorems C20_answers_at_once (serving under stale-while-revalidate = spawn the background program, return the stored response: nothing in between), C20_run (in the '
+              'sequential semantics the exchange returns at the clock reading it started at, consuming no origin reply, for every origin script, leaving exactly one pending background '
+              'program), C20_one_background_request (exactly one origin call on every path of it), C20_conditional (If-None-Match / If-Modified-Since whenever ETag / Last-Modified are stored), '
+              'C20_request_bounded + C20_timeout_default (a background call lasts min(latency, T), T = setting or 5 s for non-positive/missing), and over the goroutine transition system of '
+              'backgroundRevalidate (supervisor, worker, errc, context, origin; all interleavings): C20_no_deadlock, C20_short, C20_all_goroutines_end (every maximal execution ends within '
+              'five steps with both goroutines returned, whether the origin answers, fails or never answers), C20_one_call; C20_unbuffered_can_leak shows the channel capacity is necessary; '
+              'C20_timing. The run evaluates monitor mon_C20 on generated histories and compares swr_predict with the real transport in virtual time over settings x latencies (0 .. beyond '
+              'the timeout, never) x caller-context cancellations x outcomes x validators, counting the library goroutines left in the synctest bubble.'),
+        note=COMMON_NOTE + ' The goroutine system is a hand-written abstraction of backgroundRevalidate at the granularity of channel/context operations; its tie to the code is the observed absence of '
+             'leftover goroutines and the timing correspondence, not a translation. Assumed: the upstream RoundTripper returns once its request context is done.'),
+})
 NOT_YET = {}
